@@ -12,7 +12,7 @@ CONSTANTS
   PerGroup = 1
   CraftDepths = {}
   KeyNames = {"d1", "d2", "r1", "r2"}
-  MaxTerms = 5
+  MaxTerms = 4
   MaxIO = 1
   MaxUnit = 0
   FeeClasses = {"f1"}
@@ -20,6 +20,7 @@ CONSTANTS
   KernClasses = {"Plain"}
   ViaClasses = {"transaction"}
   CbFeeClasses = {"cf0"}
-  AlgStride = 173
+  AlgStride = 19
+  CbStride = 1
   ShapeStride = 1
 INVARIANTS TypeOK AlgSumIsValue AlgPermutation AlgAddSubRestores AlgSplitSums AlgCommitHom EmitAlg
